@@ -12,14 +12,29 @@ Operations of an enum script (one token each; the Lean driver command `dynenum <
   G<int>  E[<int>]                                   q<b>:<int>  E(numpy.uint<b>(<int>), raise_on_unrecognized=False)
   a<b>:<int> / A<b>:<int>  AutoEnum(Int<b>ul, E).parse(bytes) lenient / EnumAdapter(..., raise_on_unrecognized=True).parse(bytes)
   g<name> E[<name>]        n<name> / N<name>  E(<name>, raise_on_unrecognized=True / False)        i  list(E)     l  len(E)
+  K<id>.<form>.<wire>       a NEW adapter object number <id> for (construct.<wire>, E) is created in the way <form> names
+                            (ADAPTER_FORMS: AutoEnum / EnumAdapter, flag omitted / by keyword / positional); answers len(E)
+  Y<wire>.<form>.<other enum>  an adapter for ANOTHER enumeration on the same wire type is made; answers len(E)
+  P<id>.<form>.<wire>:<int> / F...  adapter <id>.parse(bytes of <int>) directly / as a field of a construct.Struct
 Answers: a member is NAME=value:U|R (U = is_unrecognized()), a list is comma separated, an exception is !<Type>.
-(d, G, A are the model's `s`; a, q are the model's `c`.)
+(d, G, A are the model's `s`; a, q are the model's `c`; P and F are `s` or `c` according to the flag THAT adapter was
+created with, whatever other adapters exist for the same pair and whatever was converted through them.)
+
+Operations of a mask script's `steps` (results live in named slots, so that the caller can edit them between calls):
+  [tv, mask, form, slot]  slot = M.to_values(mask)         [ts, mask, form]  M.to_string(mask)
+  [tb, idxs, by, container]  M.to_bitmask(container of the members / names / plain ints)
+  [rt, idxs, container, slot]  slot = M.to_values(M.to_bitmask(container of members))     (the property's round trip)
+  [nb, idxs, slot]  slot = a list of members made by the caller          [tbL, slot, container]  M.to_bitmask(container(slot))
+  [ed, slot, edit, i]  the caller edits the list in the slot in place (EDITS)
+Every call must give the model's answer for ITS OWN argument, and the same answer as the first time the same question
+was asked in the script: a helper that hands out a shared list is wrong as soon as a caller has edited it.
 """
 import json
 import os
 import re
 import select
 import sys
+import time
 import traceback
 
 import fv
@@ -31,6 +46,33 @@ ERRS = {ValueError: '!ValueError', KeyError: '!KeyError', TypeError: '!TypeError
 WIDE = [-1, -2, -128, -129, -32768, -32769, -2 ** 31, -2 ** 31 - 1, -2 ** 63, -2 ** 63 - 1, 127, 128, 255, 256, 257, 32767, 32768,
         65535, 65536, 65537, 2 ** 31 - 1, 2 ** 31, 2 ** 32 - 1, 2 ** 32, 2 ** 63 - 1, 2 ** 63, 2 ** 64 - 1, 2 ** 64, 2 ** 64 + 1, 10 ** 30]
 ABSENT = ['NO_SUCH_MEMBER', 'no_such_member', 'X', 'U_3', 'u', '_', '_V_3', 'UNRECOGNIZED', '3', '']
+
+
+# how an adapter object is made -> whether unrecognised values are refused (True = strict)
+ADAPTER_FORMS = {'ad': False,    # AutoEnum(wire, E)                                   (its default is permissive)
+                 'af': False,    # AutoEnum(wire, E, raise_on_unrecognized=False)
+                 'at': True,     # AutoEnum(wire, E, raise_on_unrecognized=True)
+                 'ap': True,     # AutoEnum(wire, E, True)
+                 'aq': False,    # AutoEnum(wire, E, False)
+                 'ed': True,     # EnumAdapter(E, construct.Enum(wire, E))             (its default is strict)
+                 'et': True,     # EnumAdapter(E, construct.Enum(wire, E), raise_on_unrecognized=True)
+                 'ef': False}    # EnumAdapter(E, construct.Enum(wire, E), raise_on_unrecognized=False)
+WIRES = ['Int8ul', 'Int16ul', 'Int32ul', 'Int64ul', 'Int8sl', 'Int16sl', 'Int32sl', 'Int64sl', 'Int16ub', 'Int32ub', 'Int24ul',
+         'Int8ub', 'Int16sb', 'Int64ub', 'Int24sb', 'Int32sb']
+EDITS = ['remove0', 'pop', 'clear', 'append', 'insert0', 'reverse', 'sortdesc', 'sortasc', 'extendself', 'set0', 'dellast2']
+
+
+def wire_range(w):
+    m = re.match(r'Int(\d+)([us])', w)
+    b = int(m.group(1))
+    return (0, (1 << b) - 1) if m.group(2) == 'u' else (-(1 << (b - 1)), (1 << (b - 1)) - 1)
+
+
+def adapter_op(op):
+    """(kind, id, form, wire, value or None) of a K / P / F token."""
+    head, _, v = op.partition(':')
+    i, form, wire = head[1:].split('.')
+    return op[0], i, form, wire, (int(v) if v else None)
 
 
 # ---- running the real code (inside a forked child) ------------------------------------------------------------------
@@ -82,6 +124,8 @@ class _Exec:
         self.E = E
         self.first = {}      # (name, value) -> the object first seen under that name and value
         self.adapters = {}
+        self.made = {}       # id -> (form, wire, adapter object): the adapters of K operations
+        self.foreign = []
 
     def tok(self, m):
         E = self.E
@@ -149,6 +193,45 @@ class _Exec:
                 bits, v = arg.split(':')
                 bits, v = int(bits), int(v)
                 return self.tok(self.adapter(bits, k == 'A').parse(v.to_bytes(bits // 8, 'little')))
+            if k == 'Y':                                   # an adapter for ANOTHER enumeration on the same wire type; then len(E)
+                import construct
+                from fusion_engine_client.utils.construct_utils import AutoEnum, EnumAdapter
+                wire, form, q = arg.split('.', 2)
+                O = resolve_enum(q)
+                sub = getattr(construct, wire)
+                if form[0] == 'a':
+                    a = AutoEnum(sub, O, raise_on_unrecognized=ADAPTER_FORMS[form])
+                else:
+                    a = EnumAdapter(O, construct.Enum(sub, O), raise_on_unrecognized=ADAPTER_FORMS[form])
+                self.foreign.append(a)
+                return str(len(E))
+            if k in 'KPF':
+                import construct
+                from fusion_engine_client.utils.construct_utils import AutoEnum, EnumAdapter
+                _, i, form, wire, v = adapter_op(op)
+                sub = getattr(construct, wire)
+                if k == 'K':
+                    if i in self.made:
+                        return '!bad-op'
+                    if form == 'ad':
+                        a = AutoEnum(sub, E)
+                    elif form in ('af', 'at'):
+                        a = AutoEnum(sub, E, raise_on_unrecognized=(form == 'at'))
+                    elif form in ('ap', 'aq'):
+                        a = AutoEnum(sub, E, form == 'ap')
+                    elif form == 'ed':
+                        a = EnumAdapter(E, construct.Enum(sub, E))
+                    else:
+                        a = EnumAdapter(E, construct.Enum(sub, E), raise_on_unrecognized=(form == 'et'))
+                    self.made[i] = (form, wire, a)
+                    return str(len(E))
+                if i not in self.made or self.made[i][:2] != (form, wire):
+                    return '!bad-op'
+                a = self.made[i][2]
+                data = sub.build(v)
+                if k == 'F':
+                    return self.tok(construct.Struct('pad' / construct.Int8ul, 'f' / a).parse(b'\x07' + data).f)
+                return self.tok(a.parse(data))
         except BaseException as e:
             return _err(e)
         return '!bad-op'
@@ -223,7 +306,140 @@ def _child_mask(script):
             res['tv'].append(','.join(ex.tok(m) for m in M.to_values(mask)) or '-')
         except BaseException as e:
             res['tv'].append(_err(e))
+    if script.get('steps'):
+        res['steps'] = _mask_steps(M, E, ex, vals, script['steps'])
     return res
+
+
+def _mask_steps(M, E, ex, vals, steps):
+    """The caller's side of a mask script: results are kept in slots and edited in place between calls."""
+    import collections
+    slots = {}
+    out = []
+
+    def content(r):
+        if type(r) is not list:
+            return '?type:%s' % type(r).__name__
+        return ','.join(ex.tok(m) if type(m) is E else '?type:%s' % type(m).__name__ for m in r) or '-'
+
+    def as_mask(hexs, form):
+        mask = int(hexs, 16)
+        if form == 'bool' and mask in (0, 1):
+            return bool(mask)
+        if form == 'member':
+            for m in M.__members__.values():
+                if int(m.value) == mask:
+                    return m
+        return mask
+
+    def container(kind, items):
+        items = list(items)
+        if kind in ('same', 'kwlist'):
+            return items
+        if kind == 'gen':
+            return (x for x in items)
+        if kind == 'rev':
+            return reversed(items)
+        if kind == 'dict':
+            return dict.fromkeys(items)
+        if kind == 'keys':
+            return dict.fromkeys(items).keys()
+        return {'list': list, 'tuple': tuple, 'set': set, 'frozenset': frozenset, 'iter': iter,
+                'deque': collections.deque}[kind](items)
+
+    def pick(idxs, by):
+        if by == 'name':
+            return [vals[i].name.lower() if j % 2 else vals[i].name for j, i in enumerate(idxs)]
+        if by == 'int':
+            return [int(vals[i]) for i in idxs]
+        return [vals[i] for i in idxs]
+
+    def hexmask(mask):
+        return '%x' % mask if type(mask) is int and mask >= 0 else '?mask:%s' % type(mask).__name__ if type(mask) is not int else '!negative'
+
+    for st in steps:
+        k = st[0]
+        try:
+            if k == 'tv':
+                _, hexs, form, slot = st
+                mask = as_mask(hexs, form)
+                r = M.to_values(mask=mask) if form == 'kw' else M.to_values(mask)
+                slots[slot] = r
+                out.append(content(r))
+            elif k == 'ts':
+                _, hexs, form = st
+                mask = as_mask(hexs, form)
+                r = M.to_string(mask=mask) if form == 'kw' else M.to_string(mask)
+                out.append('=' + r if type(r) is str else '?type:%s' % type(r).__name__)
+            elif k == 'tb':
+                _, idxs, by, cont = st
+                arg = container(cont, pick(idxs, by))
+                out.append(hexmask(M.to_bitmask(values=arg) if cont == 'kwlist' else M.to_bitmask(arg)))
+            elif k == 'rt':
+                _, idxs, cont, slot = st
+                mask = M.to_bitmask(container(cont, pick(idxs, 'member')))
+                r = M.to_values(mask)
+                slots[slot] = r
+                out.append(hexmask(mask) + '|' + content(r))
+            elif k == 'nb':
+                _, idxs, slot = st
+                slots[slot] = pick(idxs, 'member')
+                out.append(content(slots[slot]))
+            elif k == 'tbL':
+                _, slot, cont = st
+                if slot not in slots:
+                    out.append('!bad-ref')
+                    continue
+                arg = slots[slot]
+                before = content(arg)
+                try:
+                    ans = hexmask(M.to_bitmask(arg if cont == 'same' else container(cont, arg)))
+                except BaseException as e:
+                    ans = _err(e)
+                out.append(before + '|' + ans)
+            elif k == 'ed':
+                _, slot, edit, i = st
+                if slot not in slots:
+                    out.append('!bad-ref')
+                    continue
+                r = slots[slot]
+                new = vals[i % len(vals)] if vals else None
+                if edit == 'remove0':
+                    if r:
+                        r.remove(r[0])
+                elif edit == 'pop':
+                    if r:
+                        r.pop()
+                elif edit == 'clear':
+                    r.clear()
+                elif edit == 'append':
+                    if new is not None:
+                        r.append(new)
+                elif edit == 'insert0':
+                    if new is not None:
+                        r.insert(0, new)
+                elif edit == 'reverse':
+                    r.reverse()
+                elif edit == 'sortdesc':
+                    r.sort(key=int, reverse=True)
+                elif edit == 'sortasc':
+                    r.sort(key=int)
+                elif edit == 'extendself':
+                    r.extend(list(r))
+                elif edit == 'set0':
+                    if r and new is not None:
+                        r[0] = new
+                elif edit == 'dellast2':
+                    del r[-2:]
+                else:
+                    out.append('!bad-op')
+                    continue
+                out.append(content(r))
+            else:
+                out.append('!bad-op')
+        except BaseException as e:
+            out.append(_err(e))
+    return out
 
 
 def _child(script):
@@ -368,6 +584,101 @@ def member_and_foreign_script(info, others, rng):
     return {'kind': 'enum', 'enum': info.q, 'ops': ops, 'label': 'member-objects+foreign-enums', 'oracle': True}
 
 
+ALL_FORM_PAIRS = [(a, b) for a in sorted(ADAPTER_FORMS) for b in sorted(ADAPTER_FORMS)]
+
+
+def form_tuples(rng, n, uncovered):
+    """n creation orders (4 forms each) chosen greedily so that the ordered pairs (made earlier, made later) not yet
+    covered - `uncovered`, shared by the caller across scripts - get covered first."""
+    forms = sorted(ADAPTER_FORMS)
+    out = []
+    for _ in range(n):
+        best, gain = None, -1
+        for _ in range(24):
+            t = [rng.choice(forms) for _ in range(4)]
+            g = len(set((t[a], t[b]) for a in range(4) for b in range(a + 1, 4)) & uncovered)
+            if g > gain:
+                best, gain = t, g
+        uncovered -= set((best[a], best[b]) for a in range(4) for b in range(a + 1, 4))
+        if not uncovered:
+            uncovered |= set(ALL_FORM_PAIRS)
+        out.append(best)
+    return out
+
+
+def adapter_script(ctx, info, rng, variant, uncovered, others=()):
+    """Several adapter objects for the same (wire type, enumeration) pair, made in some order with different flags
+    and by different call forms; after each creation every adapter made so far is asked about a new unknown value,
+    a defined value and an unknown value seen before (through whichever adapter).  Each answer is judged by the flag
+    of the adapter that was asked.  The package's own fields (AutoEnum(Int8ul/16ul/32ul, X), all permissive) exist
+    since import: for those pairs the first adapter made here is a strict one."""
+    ops = checkpoint(info, [], rng, False)
+    vs = sorted(info.values)
+    own = ['Int8ul', 'Int16ul', 'Int32ul']
+    rest = WIRES[3:]
+    if not ctx.thorough:
+        rest = rng.sample(rest, 5)
+    wires = own + rest
+    if variant:
+        rng.shuffle(wires)
+    tuples = form_tuples(rng, len(wires), uncovered)
+    seen, used = [], set(info.values)
+    nid = 0
+
+    def fresh(lo, hi):
+        for c in [vs[-1] + 1, vs[0] - 1, hi, lo, 77, 200, hi - 1, lo + 1] + [rng.randint(lo, hi) for _ in range(40)]:
+            if lo <= c <= hi and c not in used:
+                used.add(c)
+                return c
+        return None
+
+    for wi, wire in enumerate(wires):
+        lo, hi = wire_range(wire)
+        forms = list(tuples[wi])
+        if wire in own and not variant:
+            forms[0] = 'at' if wi % 2 == 0 else 'ap'
+        inrange = [v for v in vs if lo <= v <= hi]
+        made = []
+        for fi, form in enumerate(forms):
+            if others and (wi + fi) % 4 == 1:      # somebody makes a field of another enumeration on this wire type
+                ops.append('Y%s.%s.%s' % (wire, rng.choice(sorted(ADAPTER_FORMS)), rng.choice(others).q))
+            tag = '%d.%s.%s' % (nid, form, wire)
+            nid += 1
+            ops.append('K' + tag)
+            for earlier in made:
+                ctx.count('adapter_order_%s_then_%s' % (earlier.split('.')[1], form))
+            made.append(tag)
+            order = made[:]
+            if rng.random() < 0.5:
+                order.sort(key=lambda t: not ADAPTER_FORMS[t.split('.')[1]])      # the strict ones first
+            elif rng.random() < 0.5:
+                order.reverse()
+            u = fresh(lo, hi)
+            if u is not None:
+                ops += ['%s%s:%d' % ('PF'[(j + wi) % 2], t, u) for j, t in enumerate(order)]
+                ops += ['P%s:%d' % (t, u) for t in reversed(order)]
+                ops += ['s%d' % u]
+                seen.append(u)
+            for v in (rng.sample(inrange, min(2, len(inrange))) if inrange else []):
+                ops += ['P%s:%d' % (t, v) for t in made]
+            old = [x for x in seen[:-1] if lo <= x <= hi]
+            if old:
+                x = rng.choice(old)
+                ops += ['P%s:%d' % (t, x) for t in made]
+        if wire == 'Int8ul' and made:
+            # the whole wire range through the strict and the permissive adapter made last, strict first
+            st = [t for t in made if ADAPTER_FORMS[t.split('.')[1]]][-1:]
+            le = [t for t in made if not ADAPTER_FORMS[t.split('.')[1]]][-1:]
+            for v in range(256):
+                ops += ['P%s:%d' % (t, v) for t in st + le + st]
+            seen += [v for v in range(256) if v not in info.values and le]
+        if wi % 3 == 2:
+            ops += checkpoint(info, seen[-40:], rng, False)
+    ops += checkpoint(info, seen, rng, True)
+    return {'kind': 'enum', 'enum': info.q, 'ops': ops, 'label': 'adapters-%s' % ('package-pairs-first' if not variant else 'shuffled'),
+            'oracle': True}
+
+
 def string_path_script(info, rng):
     """The lenient *string* conversion adds a visible member by design; compared with the model only."""
     vs = sorted(info.values)
@@ -379,6 +690,7 @@ def string_path_script(info, rng):
 def enum_scripts(ctx, infos):
     rng = ctx.rng
     out = []
+    uncovered = set(ALL_FORM_PAIRS)
     for info in infos:
         lo = list(range(256))
         sh = lo[:]
@@ -404,19 +716,32 @@ def enum_scripts(ctx, infos):
             out.append(enum_script(info, psh, rng, '16bit-sample-shuffled', 400, ab if ab >= 16 else 0))
         out.append(string_path_script(info, rng))
         others = [o for o in infos if o.q != info.q and len(o.values - info.values) + len(info.values - o.values) > 0]
+        out.append(adapter_script(ctx, info, rng, 0, uncovered, others))
+        out.append(adapter_script(ctx, info, rng, 1, uncovered, others))
         out.append(member_and_foreign_script(info, rng.sample(others, min(3, len(others))), rng))
     if ctx.thorough:
-        # every value of the 16-bit wire range, one order per enum (a lenient conversion costs O(members) in aenum)
+        # every value of the 16-bit wire range for the 16-bit classes.  A lenient conversion costs O(members) in aenum (and
+        # in the list-based model), so one history of 65536 unknown values costs as much as 256 histories of 4096: the
+        # range is split into 16 histories of 4096 values per class - contiguous ascending, contiguous descending or a random
+        # partition - each in its own process, each value converted leniently and strictly, all of it compared with the
+        # model.  One class per run also gets a single long history (16384 values, oracle on all of it, model on a prefix).
         k = 0
-        for info in infos:
-            if info.bits == 16:
-                vals = list(range(65536))
-                if k % 3 == 1:
-                    vals.reverse()
-                elif k % 3 == 2:
-                    rng.shuffle(vals)
-                k += 1
-                out.append(enum_script(info, vals, rng, '16bit-exhaustive', 16384, 0, per_value_strict=False))
+        sixteen = [info for info in infos if info.bits == 16]
+        for info in sixteen:
+            vals = list(range(65536))
+            if k % 3 == 1:
+                vals.reverse()
+            elif k % 3 == 2:
+                rng.shuffle(vals)
+            k += 1
+            for c in range(16):
+                out.append(enum_script(info, vals[c * 4096:(c + 1) * 4096], rng, '16bit-exhaustive-part', 2048, 0))
+        if sixteen:
+            info = sixteen[ctx.seed % len(sixteen)]
+            vals = rng.sample(range(65536), 16384)
+            sc = enum_script(info, vals, rng, '16bit-long-history', 4096, 0, per_value_strict=False)
+            sc['model_ops'] = 5000
+            out.append(sc)
     return out
 
 
@@ -435,6 +760,65 @@ def subsets_of(n, rng, limit):
     return res
 
 
+CONTAINERS = ['list', 'tuple', 'set', 'frozenset', 'gen', 'iter', 'rev', 'dict', 'keys', 'deque', 'kwlist']
+
+
+def mutation_steps(values, off, rng, nmasks, names):
+    """Calls of the three helpers with equal masks / equal sets, repeated, the arguments handed over in different ways
+    (positional / keyword, int / bool / mask-class member, list / tuple / set / generator ...), and between the calls
+    the caller edits the lists it got back (and lists of its own that it passed in).  `values` = the captured members'
+    integer values in the captured order."""
+    n = len(values)
+    steps = []
+    cnt = [0]
+
+    def slot():
+        cnt[0] += 1
+        return 'r%d' % cnt[0]
+
+    def mask_of(idxs):
+        return '%x' % sum(1 << (values[i] - off) for i in set(idxs))
+
+    def mixed(idxs):
+        t = list(idxs)
+        rng.shuffle(t)
+        return t + t[:rng.randrange(3)]
+
+    def form_for(mk):
+        return rng.choice(['int', 'kw', 'member', 'bool' if mk in ('0', '1') else 'int'])
+
+    subsets = [list(range(n)), [0], []] + ([[n - 1]] if n > 1 else [])
+    while len(subsets) < nmasks:
+        subsets.append([i for i in range(n) if rng.random() < rng.choice([0.2, 0.5, 0.8])])
+    for si, idxs in enumerate(subsets):
+        mk = mask_of(idxs)
+        for e in (EDITS if si < 2 else rng.sample(EDITS, 2)):
+            a, b, c = slot(), slot(), slot()
+            steps.append(['tv', mk, 'int', a])
+            steps.append(['ed', a, e, rng.randrange(max(n, 1))])                     # the caller edits what it got ...
+            steps.append(['tv', mk, form_for(mk), b])                               # ... and asks again
+            steps.append(['ts', mk, rng.choice(['int', 'kw', 'member'])])
+            steps.append(['tbL', b, rng.choice(['same', 'tuple', 'set', 'gen'])])   # to_bitmask(to_values(mask))
+            steps.append(['tbL', a, 'same'])                                        # the edited list is an argument like any other
+            if rng.random() < 0.5:
+                steps.append(['ed', b, rng.choice(EDITS), rng.randrange(max(n, 1))])
+            steps.append(['rt', mixed(idxs), rng.choice(CONTAINERS[:-1]), c])       # set -> mask -> list ...
+            steps.append(['ed', c, rng.choice(EDITS), rng.randrange(max(n, 1))])
+            steps.append(['rt', mixed(idxs), rng.choice(CONTAINERS[:-1]), slot()])  # ... again after the caller edited the list
+        for cont in CONTAINERS:       # the same set through every kind of iterable
+            steps.append(['tb', mixed(idxs), rng.choice(['member', 'member', 'int', 'name'] if names else ['member', 'int']), cont])
+        a = slot()                    # a list of the caller's own, edited between calls that take it
+        steps += [['nb', mixed(idxs), a], ['tbL', a, 'same'], ['ed', a, rng.choice(EDITS), rng.randrange(max(n, 1))], ['tbL', a, 'same'],
+                  ['ed', a, rng.choice(EDITS), rng.randrange(max(n, 1))], ['tbL', a, rng.choice(['tuple', 'gen', 'set'])]]
+    top = max([v - off for v in values] + [0])
+    for _ in range(3):                # masks with bits no member has
+        mk = '%x' % rng.getrandbits(top + 1 + rng.choice([0, 3, 9]))
+        a = slot()
+        steps += [['tv', mk, 'int', a], ['ed', a, rng.choice(EDITS), rng.randrange(max(n, 1))], ['tv', mk, form_for(mk), slot()],
+                  ['ts', mk, 'int'], ['ed', a, rng.choice(EDITS), rng.randrange(max(n, 1))], ['ts', mk, 'kw'], ['tv', mk, 'int', slot()]]
+    return steps
+
+
 def mask_scripts(ctx, infos, masks):
     rng = ctx.rng
     out = []
@@ -448,16 +832,22 @@ def mask_scripts(ctx, infos, masks):
         offs = [(0, True)] if vs[0] >= 0 else []
         offs += [(vs[0], True)] if vs[0] > 0 else []
         offs += [(vs[0] - 3, True), (vs[0] + 1, False)]       # the last one: a member below the offset (ValueError)
+        captured = [v for nm, v in info.defn if info.canon[v] == nm]        # list(E): canonical members, definition order
+        synthetic = info.q.startswith('synthetic:')
         for j, (off, db) in enumerate(offs):
             limit = (256 if big else 4096 if j == 0 else 512) * (4 if ctx.thorough and not big else 1)
+            steps = []
+            if not big and off <= vs[0] and (j < 2 or synthetic or ctx.thorough):
+                steps = mutation_steps(captured, off, rng, (8 if synthetic else 4) + 4 * ctx.thorough, db)
             out.append({'kind': 'mask', 'enum': info.q, 'offset': off, 'define_bits': db, 'names': db and not big,
                         'pre': [vs[-1] + 1, vs[-1] + 2, vs[0] - 1, 77] if j % 2 else [],
-                        'subsets': subsets_of(n, rng, limit),
+                        'subsets': subsets_of(n, rng, limit), 'steps': steps,
                         'raw_masks': [rng.getrandbits(rng.choice([4, 8, 16, 40])) for _ in range(20)] if not big else [0, 1, 5]})
     for m in masks:
         n = len(m['enum_values'])
         out.append({'kind': 'mask', 'package_mask': m['qualname'], 'enum': m['base'], 'names': True, 'pre': [200, 201],
-                    'subsets': subsets_of(n, rng, 4096), 'raw_masks': [rng.getrandbits(32) for _ in range(200)] + [0xFFFFFFFF]})
+                    'subsets': subsets_of(n, rng, 4096), 'raw_masks': [rng.getrandbits(32) for _ in range(200)] + [0xFFFFFFFF],
+                    'steps': mutation_steps([v for _, v in m['enum_values']], m['offset'], rng, 24 if ctx.thorough else 12, True)})
     return out
 
 
@@ -476,14 +866,23 @@ def model_op(op):
         return 's' + op.split(':')[1]
     if op[0] in 'dG':
         return 's' + op[1:]
+    if op[0] in 'KY':
+        return 'l'                   # making an adapter does not touch the enumeration
+    if op[0] in 'PF':
+        _, _, form, _, v = adapter_op(op)
+        return ('s%d' if ADAPTER_FORMS[form] else 'c%d') % v      # by the flag of the adapter that is asked, nothing else
     return op
 
 
-MODEL_OPS = 9000    # the list-based model is quadratic in the number of hidden members: longer scripts are compared on a prefix
+MODEL_OPS = 12000   # the list-based model is quadratic in the number of hidden members: longer scripts are compared on a prefix
+
+
+def model_ops(script):
+    return script.get('model_ops', MODEL_OPS)
 
 
 def model_line(info, script):
-    return 'dynenum %s %s' % (info.defs(), ';'.join(model_op(o) for o in script['ops'][:MODEL_OPS]) or '-')
+    return 'dynenum %s %s' % (info.defs(), ';'.join(model_op(o) for o in script['ops'][:model_ops(script)]) or '-')
 
 
 # ---- oracle: the property statement on the answers of the real classes -------------------------------------------------
@@ -502,21 +901,31 @@ def judge_enum(ctx, info, script, toks):
         return name.startswith(PREFIX) or name.upper().startswith(PREFIX)
 
     def add(sig, desc, i):
-        bad.append(('C17/' + sig, '%s: %s (operation %d `%s` of script %s, after %d conversions) -> %s'
-                    % (info.q, desc, i, script['ops'][i], script['label'], conversions, toks[i][:120]), i))
+        wire = script['ops'][i].partition(':')[0].split('.')[-1]
+        made = [o for o in script['ops'][:i] if o[0] == 'K' and o.endswith('.' + wire)]     # the adapters of the same pair
+        bad.append(('C17/' + sig, '%s: %s%s (operation %d `%s` of script %s, after %d conversions%s) -> %s'
+                    % (info.q, how, desc, i, script['ops'][i], script['label'], conversions,
+                       ' and the creation, in this order, of the adapters %s' % ' '.join(made) if made and how else '', toks[i][:120]), i))
 
+    how = ''
     for i, (op, t) in enumerate(zip(script['ops'], toks)):
         k = op[0]
+        how = ''
         if '~' in t:
             add('member-identity-changed', 'a member equal to, but not the same object as, the one returned earlier', i)
             continue
         if '?' in t:
             add('result-not-a-member', 'result is not a member of the class', i)
             continue
-        if k in 'caqL':
-            v = int(op.split(':')[1]) if k in 'aq' else int(op[1:])
+        if k in 'PF':
+            _, _, form, wire, v = adapter_op(op)
+            k = 'pP'[ADAPTER_FORMS[form]]       # p = asked of a permissive adapter, P = of a strict one
+            how = '%s for (%s, E) made as %s, ' % ('EnumAdapter' if form[0] == 'e' else 'AutoEnum', wire, form)
+        if k in 'caqLp':
+            v = v if k == 'p' else int(op.split(':')[1]) if k in 'aq' else int(op[1:])
             conversions += 1
-            site = {'c': 'call-lenient', 'a': 'adapter-lenient', 'q': 'call-lenient-numpy', 'L': 'call-lenient-on-member-object'}[k]
+            site = {'c': 'call-lenient', 'a': 'adapter-lenient', 'q': 'call-lenient-numpy', 'L': 'call-lenient-on-member-object',
+                    'p': 'adapter-lenient'}[k]
             m = MEMBER.match(t)
             if not m:
                 add(site + '/raises', 'lenient conversion of %d raised' % v, i)
@@ -527,9 +936,9 @@ def judge_enum(ctx, info, script, toks):
             elif v not in info.values and m.group(3) != 'U':
                 add(site + '/unknown-not-flagged', 'lenient conversion of the undefined value %d is not flagged unrecognized' % v, i)
             lenient_seen.add(v)
-        elif k in 'sAdGMDI':
-            v = int(op.split(':')[1]) if k == 'A' else int(op[1:])
-            site = {'s': 'call-strict', 'A': 'adapter-strict', 'd': 'call-default', 'G': 'getitem-int',
+        elif k in 'sAdGMDIP':
+            v = v if k == 'P' else int(op.split(':')[1]) if k == 'A' else int(op[1:])
+            site = {'s': 'call-strict', 'A': 'adapter-strict', 'd': 'call-default', 'G': 'getitem-int', 'P': 'adapter-strict',
                     'M': 'call-strict-on-member-object', 'D': 'call-default-on-member-object', 'I': 'getitem-member-object'}[k]
             if k in 'MDI':
                 lenient_seen.add(v)
@@ -539,6 +948,9 @@ def judge_enum(ctx, info, script, toks):
             elif not t.startswith('!'):
                 add(site + ('/accepts-unknown-seen-before' if v in lenient_seen else '/accepts-unknown'),
                     'strict conversion of the undefined value %d is not refused' % v, i)
+        elif k in 'KY':
+            if 'l' in baseline and t != baseline['l']:
+                add('len/changed-after-adapter-creation', 'len(E) was %s on the fresh class and is %s' % (baseline['l'], t), i)
         elif k == 'x':
             conversions += 1         # another enumeration saw an unknown value; len(E) is reported
             if 'l' in baseline and t != baseline['l']:
@@ -575,6 +987,119 @@ def judge_enum(ctx, info, script, toks):
     return bad
 
 
+def judge_steps(script, res, tag):
+    """The steps of a mask script.  Returns (violations [(signature, text, step index)], model requests
+    [(driver line, what the real class answered, step index, what)]).  Oracle: (1) the property's round trip - the list
+    that comes back for the mask of a set is that set; (2) history independence - a call gives what the same call
+    (equal mask / equal set) gave the first time it was made in this script, whatever the caller has done since to the
+    objects it got back."""
+    bad, req = [], []
+    off = res['offset']
+    members = [] if res['enum_values'] == '-' else res['enum_values'].split(',')
+    names = [MEMBER.match(m).group(1) for m in members]
+    vals = [int(MEMBER.match(m).group(2)) for m in members]
+    plain = ','.join('%s=%d' % (nm, v) for nm, v in zip(names, vals)) or '-'
+    ok_offset = all(v >= off for v in vals)
+    first = {}
+    edits = []
+
+    def items_of(content):
+        if content == '-':
+            return []
+        out = []
+        for t in content.split(','):
+            m = MEMBER.match(t)
+            if not m or m.group(4):
+                return None
+            out.append(int(m.group(2)))
+        return out
+
+    def same_question(key, what, ans, j):
+        if key not in first:
+            first[key] = (ans, j)
+        elif first[key][0] != ans:
+            between = [script['steps'][e] for e in edits if first[key][1] < e < j]
+            bad.append(('C17/mask/%s-differs-between-equal-calls' % what.split('(')[0],
+                        '%s: %s = %r at step %d, but the equal call at step %d gave %r; in between the caller edited lists it had '
+                        'got back or passed in: %s' % (tag, what, ans[:160].lstrip('='), j, first[key][1], first[key][0][:160].lstrip('='),
+                                                       between[:6]), j))
+
+    for j, (st, ans) in enumerate(zip(script['steps'], res['steps'])):
+        k = st[0]
+        if ans in ('!bad-ref', '!bad-op'):
+            continue
+        if k == 'ed':
+            edits.append(j)
+        elif k == 'tv':
+            req.append(('masktv %d %s %s' % (off, plain, st[1]), ans, j, 'to_values(0x%s)' % st[1]))
+            same_question(('tv', st[1]), 'to_values(0x%s)' % st[1], ans, j)
+        elif k == 'ts':
+            req.append(('maskts %d %s %s' % (off, plain, st[1]), ans, j, 'to_string(0x%s)' % st[1]))
+            same_question(('ts', st[1]), 'to_string(0x%s)' % st[1], ans, j)
+        elif k == 'tb':
+            _, idxs, by, cont = st
+            if by == 'name':
+                items = ','.join('@' + (names[i].lower() if x % 2 else names[i]) for x, i in enumerate(idxs)) or '-'
+                req.append(('masktb %d %s %s' % (off, res['attrs'], items), ans, j, 'to_bitmask(names)'))
+                same_question(('tbn', frozenset(idxs)), 'to_bitmask(%s of names %s)' % (cont, sorted(set(idxs))), ans, j)
+            else:
+                items = ','.join(str(vals[i]) for i in idxs) or '-'
+                req.append(('masktb %d - %s' % (off, items), ans, j, 'to_bitmask(%s)' % by))
+                same_question(('tb', frozenset(vals[i] for i in idxs)), 'to_bitmask(%s of %s)' % (cont, sorted(set(vals[i] for i in idxs))), ans, j)
+        elif k == 'tbL':
+            arg, _, got = ans.rpartition('|')
+            its = items_of(arg)
+            if its is None:
+                bad.append(('C17/mask/result-not-a-list-of-members', '%s: the list in slot %s holds %s' % (tag, st[1], arg[:120]), j))
+                continue
+            req.append(('masktb %d - %s' % (off, ','.join(map(str, its)) or '-'), got, j, 'to_bitmask(list in slot %s)' % st[1]))
+            same_question(('tb', frozenset(its)), 'to_bitmask(%s of %s)' % (st[2], sorted(set(its))), got, j)
+        elif k == 'rt':
+            _, idxs, cont, _ = st
+            mask, _, back = ans.partition('|')
+            want = ','.join(members[i] for i in range(len(members)) if i in set(idxs)) or '-'
+            if ok_offset and not ans.startswith('!') and back != want:
+                bad.append(('C17/mask/roundtrip-differs' + ('-after-caller-edits' if edits else ''),
+                            '%s: to_values(to_bitmask(S)) = [%s] for S = [%s] (mask 0x%s) at step %d; before it the caller edited '
+                            'lists it had got back: %s' % (tag, back[:160], want[:160], mask[:40], j, [script['steps'][e] for e in edits][-4:]), j))
+            items = ','.join(str(vals[i]) for i in idxs) or '-'
+            if ans.startswith('!'):
+                req.append(('masktb %d - %s' % (off, items), ans, j, 'to_bitmask(S) of a round trip'))
+            else:
+                req.append(('masktb %d - %s' % (off, items), mask, j, 'to_bitmask(S) of a round trip'))
+                if not mask.startswith(('!', '?')):
+                    req.append(('masktv %d %s %s' % (off, plain, mask), back, j, 'to_values(to_bitmask(S))'))
+            same_question(('rt', frozenset(idxs)), 'to_values(to_bitmask(%s of members %s))' % (cont, sorted(set(idxs))), ans, j)
+    return bad, req
+
+
+def shrink_steps(script, j, sig):
+    """Fewer steps that still end in the same violation: the steps up to the failing one, dropped one at a time."""
+    base = dict(script, subsets=[], raw_masks=[])
+    steps = script['steps'][:j + 1]
+
+    def fails(cand):
+        r = run_forked([dict(base, steps=cand)], 1)[0].get('ok')
+        if not r or r.get('decorate') != 'ok' or 'steps' not in r:
+            return False
+        tag = script.get('package_mask') or '%s offset=%d' % (script['enum'], script['offset'])
+        return any(s == sig and x == len(cand) - 1 for s, _, x in judge_steps(dict(base, steps=cand), r, tag)[0])
+    try:
+        if fails(steps):
+            for keep in (12, 6, 3):          # usually the last few steps are enough
+                if len(steps) > keep and fails(steps[-keep:]):
+                    steps = steps[-keep:]
+            i = len(steps) - 2
+            while i >= 0:
+                cand = steps[:i] + steps[i + 1:]
+                if fails(cand):
+                    steps = cand
+                i -= 1
+    except fv.InfraError:
+        pass
+    return dict(base, steps=steps)
+
+
 def judge_mask(ctx, script, res, lines, pend):
     """Oracle for one mask script and the model requests for it."""
     bad = []
@@ -594,7 +1119,7 @@ def judge_mask(ctx, script, res, lines, pend):
     plain = ','.join('%s=%d' % (MEMBER.match(m).group(1), v) for m, v in zip(members, vals)) or '-'
     for idxs, row in zip(script['subsets'], res['rows']):
         want = ','.join(members[i] for i in range(len(members)) if i in set(idxs)) or '-'
-        rp = {'script': dict(script, subsets=[idxs], raw_masks=[]), 'subset_members': [members[i] for i in idxs]}
+        rp = {'script': dict(script, subsets=[idxs], raw_masks=[], steps=[]), 'subset_members': [members[i] for i in idxs]}
         if ok_offset:
             if row['mask'].startswith('!'):
                 bad.append(('C17/mask/to_bitmask-raises', '%s: to_bitmask(%s) raised %s' % (tag, rp['subset_members'], row['mask']), rp))
@@ -624,7 +1149,18 @@ def judge_mask(ctx, script, res, lines, pend):
         ctx.count('mask_subsets')
     for mask, got in zip(script.get('raw_masks', []), res['tv']):
         lines.append('masktv %d %s %x' % (off, plain, mask))
-        pend.append(('tv-raw', got, {'script': dict(script, subsets=[], raw_masks=[mask])}, tag))
+        pend.append(('tv-raw', got, {'script': dict(script, subsets=[], raw_masks=[mask], steps=[])}, tag))
+    if script.get('steps'):
+        sbad, req = judge_steps(script, res, tag)
+        for sig, desc, j in sbad:
+            bad.append((sig, desc, ('steps', j)))
+        for line, got, j, what in req:
+            lines.append(line)
+            pend.append(('step %d %s %s' % (j, script['steps'][j], what), got,
+                         {'script': dict(script, subsets=[], raw_masks=[], steps=script['steps'][:j + 1])}, tag))
+        ctx.count('mask_steps', len(script['steps']))
+        ctx.count('mask_steps_editing_a_result', sum(1 for st in script['steps'] if st[0] == 'ed'))
+        ctx.case('%s|steps|%s' % (tag, json.dumps(script['steps'])), nontrivial=True)
     return bad
 
 
@@ -649,7 +1185,13 @@ def translate(ctx):
 
 def run_scripts(ctx, infos, scripts):
     by = {i.q: i for i in infos}
-    results = run_forked(scripts, nproc=6 if ctx.thorough else 4, timeout=5400 if ctx.thorough else 600)
+    # the expensive scripts first (a lenient conversion costs O(members)): the workers finish together
+    scripts = sorted(scripts, key=lambda sc: -(sum(1 for o in sc['ops'] if o[0] in 'caq') if sc['kind'] == 'enum' else
+                                               (len(sc.get('subsets', [])) + len(sc.get('steps', []))) // 8))
+    t0 = time.time()
+    results = run_forked(scripts, nproc=min(12, os.cpu_count() or 6) if ctx.thorough else 4, timeout=5400 if ctx.thorough else 600)
+    timing = ctx.cov.setdefault('timing_s', {})
+    timing['real_classes'] = round(timing.get('real_classes', 0) + time.time() - t0, 1)
     lines, pend = [], []
     reported = set(sig for sig, _, _ in ctx.violations)
     for sc, r in zip(scripts, results):
@@ -673,16 +1215,20 @@ def run_scripts(ctx, infos, scripts):
                 ctx.count('violations_seen')
                 if sig not in reported:
                     reported.add(sig)
-                    ctx.violation(sig, desc, rp if rp is not None else {'script': dict(sc, subsets=sc['subsets'][:1])})
+                    if isinstance(rp, tuple):
+                        rp = {'script': shrink_steps(sc, rp[1], sig)}
+                    ctx.violation(sig, desc, rp if rp is not None else {'script': dict(sc, subsets=sc['subsets'][:1], steps=[])})
+    t0 = time.time()
     outs = ctx.driver(lines)
+    timing['model'] = round(timing.get('model', 0) + time.time() - t0, 1)
     for (kind, got, a, b), mo in zip(pend, outs):
         ctx.cov['traces_validated_against_impl'] += 1
         if kind == 'enum':
             sc, info = a, b
-            impl = ';'.join(got[:MODEL_OPS])
-            if len(got) > MODEL_OPS:
-                ctx.count('operations_beyond_model_prefix_oracle_only', len(got) - MODEL_OPS)
-            ctx.case('%s|%s' % (info.q, ';'.join(sc['ops'])), nontrivial=any(o[0] in 'caqN' for o in sc['ops']))
+            impl = ';'.join(got[:model_ops(sc)])
+            if len(got) > model_ops(sc):
+                ctx.count('operations_beyond_model_prefix_oracle_only', len(got) - model_ops(sc))
+            ctx.case('%s|%s' % (info.q, ';'.join(sc['ops'])), nontrivial=any(o[0] in 'caqNPF' for o in sc['ops']))
             if impl != mo:
                 it, mt = impl.split(';'), mo.split(';')
                 j = next((x for x in range(min(len(it), len(mt))) if it[x] != mt[x]), min(len(it), len(mt)))
@@ -705,15 +1251,20 @@ class _NoCount:
 
 def shrink_enum(ctx, info, sc, i, sig=None):
     """A short script that still fails in the same way at its last operation: [the same question on the fresh class]
-    + some of the lenient conversions before it (halved greedily) + the offending operation.  `sig` = the oracle
-    signature to preserve, or None to preserve a disagreement with the model."""
+    + the adapter creations + some of the lenient conversions before it (halved greedily, then one by one, then the
+    adapter creations one by one) + the offending operation.  `sig` = the oracle signature to preserve, or None to
+    preserve a disagreement with the model."""
     ops = sc['ops'][:i + 1]
     last = ops[-1]
     head = [last] if last[0] in 'ilgn' else []
-    keep = [o for o in ops[:-1] if o[0] in 'caqN']
+    keep = [(j, o) for j, o in enumerate(ops[:-1]) if o[0] in 'caqNPF']
+    made = [(j, o) for j, o in enumerate(ops[:-1]) if o[0] in 'KY']
 
-    def fails(body):
-        cand = dict(sc, ops=head + body + [last])
+    def build(made, body):
+        return head + [o for _, o in sorted(made + body)] + [last]
+
+    def fails(made, body):
+        cand = dict(sc, ops=build(made, body))
         r = run_forked([cand], 1)[0].get('ok')
         if not r:
             return False
@@ -721,20 +1272,32 @@ def shrink_enum(ctx, info, sc, i, sig=None):
             return any(s == sig and j == len(cand['ops']) - 1 for s, _, j in judge_enum(_NoCount(), info, cand, r))
         return ctx.driver([model_line(info, cand)])[0].split(';')[-1] != r[-1]
     try:
-        if fails(keep):
+        if fails(made, keep):
             cur = keep
             for _ in range(20):
                 if not cur:
                     break
-                if fails(cur[len(cur) // 2:]):
+                if fails(made, cur[len(cur) // 2:]):
                     cur = cur[len(cur) // 2:]
-                elif fails(cur[:len(cur) // 2]):
+                elif fails(made, cur[:len(cur) // 2]):
                     cur = cur[:len(cur) // 2]
-                elif len(cur) > 2 and fails(cur[:-1]):
+                elif len(cur) > 2 and fails(made, cur[:-1]):
                     cur = cur[:-1]
                 else:
                     break
-            return dict(sc, ops=head + cur + [last], label=sc['label'] + '/shrunk')
+            if len(cur) <= 24:
+                for x in list(cur):
+                    rest = [y for y in cur if y is not x]
+                    if fails(made, rest):
+                        cur = rest
+            # an adapter nobody asks any more can only matter by having been made: try without each (with what asks it)
+            for x in list(made):
+                ident = x[1][1:].split('.')[0]
+                rest_m = [y for y in made if y is not x]
+                rest_c = [y for y in cur if not (y[1][0] in 'PF' and y[1][1:].split('.')[0] == ident)]
+                if not (last[0] in 'PF' and last[1:].split('.')[0] == ident) and fails(rest_m, rest_c):
+                    made, cur = rest_m, rest_c
+            return dict(sc, ops=build(made, cur), label=sc['label'] + '/shrunk')
     except fv.InfraError:
         pass
     return dict(sc, ops=ops)
@@ -745,10 +1308,13 @@ def run(ctx, data):
     # synthetic enumerations (declared in non-ascending order, with gaps, negative values): the helpers and the
     # metaclass are generic, the property is not only about the classes the package happens to define
     syn = synthetic_infos()
+    uncovered = set(ALL_FORM_PAIRS)
     scripts = enum_scripts(ctx, infos) + mask_scripts(ctx, infos + syn, data['masks'])
     for si in syn:
         scripts.append(member_and_foreign_script(si, ctx.rng.sample(infos, 2), ctx.rng))
         scripts.append(enum_script(si, list(range(-8, 48)), ctx.rng, 'synthetic', 16, 0))
+        for variant in (0, 1, 1):          # pairs nobody made an adapter for before: every creation order is possible
+            scripts.append(adapter_script(ctx, si, ctx.rng, variant, uncovered, infos))
     infos = infos + syn
     ctx.count('enum_classes', len(infos))
     run_scripts(ctx, infos, scripts)
@@ -767,12 +1333,23 @@ def check(ctx):
         'all integers 0..255 ascending, descending and shuffled; boundary values of the 8/16/32/64-bit signed and unsigned ranges, '
         'neighbours of every defined value and random 64-bit integers, shuffled; for classes not known to travel in an 8-bit field '
         'a sample of the 16-bit range (with its ends and the neighbours of defined values) in three orders (thorough: all 65536 '
-        'values for the 16-bit classes); per value: lenient conversion (directly or through EnumAdapter/AutoEnum.parse) and strict '
+        'values for the 16-bit classes, in 16 histories of 4096 values each, each value converted leniently and strictly); per value: lenient conversion (directly or through EnumAdapter/AutoEnum.parse) and strict '
         'conversion before and after; at checkpoints list(E), len(E), E[name] for every defined name, absent names, strict conversion '
         'of the values seen so far, hidden-name lookups; mask helpers: all subsets of the captured members (up to 2^12, sampled '
-        'beyond) for several offsets, by member and by name, plus random masks for to_values.  A case is one script (distinct = '
+        'beyond) for several offsets, by member and by name, plus random masks for to_values.  Adapters: per class two scripts '
+        'that make several adapter objects for the same (wire type, enumeration) pair - 8 ways of making one (AutoEnum / '
+        'EnumAdapter, flag omitted / keyword / positional, strict / permissive), 16 wire types (quick: Int8ul/16ul/32ul + 5 others), '
+        'creation orders chosen so that all 64 ordered pairs (made earlier, made later) keep being covered, for the pairs the '
+        'package itself made fields for at import a strict one first - and after each creation ask every adapter made so far '
+        '(directly and as a Struct field) for a new unknown value, a defined value and an unknown value seen through another '
+        'adapter, the whole 8-bit range through the last strict and permissive one; each answer judged by the flag of the adapter '
+        'asked; adapters for other enumerations on the same wire type are made in between.  Mask helpers under mutation: scripts of '
+        'to_values / to_string / to_bitmask / round-trip calls with equal masks and equal sets (int / bool / mask member / keyword; '
+        'list, tuple, set, frozenset, generator, iterator, reversed, dict, keys view, deque; members, plain ints, names) in which the '
+        'caller edits (11 kinds of edit) every list it got back or passed in between the calls; every call must equal the model\'s '
+        'answer for its own argument and the first answer to the same question.  A case is one script (distinct = '
         'distinct enum and operation list; non-trivial = contains a lenient conversion) or one (mask class, subset) pair '
-        '(non-trivial = non-empty subset).')
+        '(non-trivial = non-empty subset) or the step list of one mask class.')
     ctx.assumptions += [
         'Model/DynEnum.lean models DynamicEnumMeta together with aenum.extend_enum (stdlib-Enum, non-Flag path) and CPython 3.12 '
         'Enum.__new__/_proto_member.__set_name__ as three tables (_member_names_, _member_map_, _value2member_map_); it is tied to the '
@@ -786,7 +1363,14 @@ def check(ctx):
         'property\'s quantifier (it is modelled and compared, not part of the stability theorem)',
         'hidden-name lookups (E[\'_U_3\'] resolves after 3 was converted leniently) are not counted among the "name lookups of the '
         'enumeration": theorem C17_lookup_changes_only_hidden shows this is the only lookup that can change',
-        'masks are natural numbers (to_values of a negative mask is outside the model)']
+        'masks are natural numbers (to_values of a negative mask is outside the model)',
+        'an adapter object is modelled by the flag it was created with and nothing else (P/F operations are the model\'s strict or '
+        'lenient conversion according to that flag): no state is shared between adapter objects, and the mask helpers are '
+        'functions of their argument (Model/DynEnum.lean: toValues, toBitmask, maskToString) - a caller editing a returned '
+        'list has no counterpart in the model because it cannot matter',
+        'thorough tier: the 65536 values of a 16-bit class are converted in 16 separate histories of 4096 values (one process '
+        'each) instead of one history of 65536, plus one 16384-value history for one class per run; no code path depends on the '
+        'number of hidden members']
     try:
         data = translate(ctx)
     except c17_extract.ExtractError:
@@ -805,7 +1389,7 @@ def check(ctx):
 def replay(ctx, path):
     obj = json.load(open(path))
     data = c17_extract.extract(fv.REPO)
-    infos = [Info(e) for e in data['enums']]
+    infos = [Info(e) for e in data['enums']] + synthetic_infos()
     r = obj['input']
     scripts = [r['script']] if isinstance(r, dict) and 'script' in r else []
     if not scripts:
